@@ -213,14 +213,11 @@ theorem Step.appBindReq (e : EP) (req : Nat) (bt : BindType) (host : Bytes) (por
   split
   · exact Step.refl e
   · rename_i fid rng' fb' hd
-    have hs := drawId_spec _ _ _ _ _ _ _ hd
-    have s : Step e { e with rng := rng', fallback := fb', flows := insert e.flows fid (.bindRequested req) } :=
-      (Step.insertPending e fid (.bindRequested req) (by intro i hc; cases hc) hs.2).trans
-        (Step.same rfl rfl rfl)
-    simp only
     split
-    · exact s
-    · exact s.trans (Step.enqFrame _ _)
+    · exact Step.same rfl rfl rfl
+    · have s : Step e { e with rng := rng', fallback := fb', flows := insert e.flows fid (.bindRequested req) } :=
+        (Step.insertPending e fid (.bindRequested req) (by intro i hc; cases hc) (drawId_spec _ _ _ _ _ _ _ hd).2).trans (Step.same rfl rfl rfl)
+      exact s.trans (Step.enqFrame _ _)
 
 theorem Step.appBindNext (e : EP) : Step e (appBindNext e).1 := by
   unfold Mux.appBindNext
